@@ -213,7 +213,12 @@ class ArithFunctions(InterpreterFunctions):
         rhs: int
         (lhs, rhs) = args
         assert rhs >= 0
-        return (lhs << rhs,)
+        assert isa(op.result.type, builtin.IndexType | builtin.IntegerType)
+        bitwidth = _int_bitwidth(interpreter, op.result.type)
+        if rhs >= bitwidth:
+            # The result is poison, do not materialise an arbitrarily large integer.
+            return (0,)
+        return (to_signed(lhs << rhs, bitwidth),)
 
     @impl(arith.ShRSIOp)
     def run_shrsi(
